@@ -146,9 +146,11 @@ func findIIFE(fset *token.FileSet, f *ast.File, src []byte, n int) *srcEdit {
 		// an IIFE with one result used inside a larger expression of a simple statement whose other
 		// operands are free of calls, receives and indexing: hoist it into a temporary first
 		switch st := node.(type) {
-		case *ast.AssignStmt, *ast.ReturnStmt:
+		case *ast.AssignStmt, *ast.ReturnStmt, *ast.ExprStmt:
 			var target *ast.CallExpr
 			var fl *ast.FuncLit
+			var outer *ast.CallExpr
+			impure := 0
 			pure := true
 			ast.Inspect(st, func(n ast.Node) bool {
 				switch x := n.(type) {
@@ -165,7 +167,9 @@ func findIIFE(fset *token.FileSet, f *ast.File, src []byte, n int) *srcEdit {
 							return true
 						}
 					}
-					pure = false
+					// one call whose arguments are evaluated before it runs may surround the literal
+					impure++
+					outer = x
 				case *ast.IndexExpr, *ast.SliceExpr, *ast.StarExpr, *ast.TypeAssertExpr:
 					pure = false
 				case *ast.UnaryExpr:
@@ -179,8 +183,28 @@ func findIIFE(fset *token.FileSet, f *ast.File, src []byte, n int) *srcEdit {
 				}
 				return true
 			})
-			if target == nil || !pure {
+			if target == nil || !pure || impure > 1 {
 				return
+			}
+			if impure == 1 {
+				// the literal must be a direct argument of that call, and the call's function expression simple
+				direct := false
+				for _, a := range outer.Args {
+					if a == ast.Expr(target) {
+						direct = true
+					}
+				}
+				simpleFun := true
+				ast.Inspect(outer.Fun, func(n ast.Node) bool {
+					switch n.(type) {
+					case *ast.CallExpr, *ast.IndexExpr, *ast.StarExpr, *ast.TypeAssertExpr, *ast.FuncLit:
+						simpleFun = false
+					}
+					return simpleFun
+				})
+				if !direct || !simpleFun {
+					return
+				}
 			}
 			// direct forms are handled by the caller
 			if as, ok := st.(*ast.AssignStmt); ok && len(as.Rhs) == 1 && as.Rhs[0] == ast.Expr(target) {
